@@ -72,9 +72,14 @@ def run_merge(db, case):
         return bad, got1
     if [(str(o), dict(o.attributes.items())) for o in objs] != before:
         return "inputs_changed", None
-    # merging the same objects again gives the same result
+    # merging the same objects again gives the same result - this time the criteria arrive as a tuple / a one-shot generator / an iterator
+    # and the features as a one-shot generator (any iterable is an iterable)
+    kw2 = dict(kw)
+    if "merge_criteria" in kw2:
+        form = (len(case["feats"]) + len(crit)) % 3
+        kw2["merge_criteria"] = tuple(crit) if form == 0 else (c for c in crit) if form == 1 else iter(list(crit))
     try:
-        got2 = out_view(list(db.merge(objs, **kw)), objs)
+        got2 = out_view(list(db.merge((o for o in objs), **kw2)), objs)
     except Exception as e:  # noqa
         return "second_merge_raised:" + type(e).__name__, None
     bad = compare(case["exp"], got2)
@@ -133,6 +138,60 @@ def check_model(ctx, m, e, k):
     ctx.count(I.model_lines(m), True)
 
 
+def scaled_merge_all(models, exps, exclude, path):
+    """scale: the gene models whose flag is `exclude`, each moved to its own seqid (and its names suffixed), in ONE database of thousands of features;
+    merge_all() groups by (seqid, featuretype, strand), so the blocks do not interact and the expectation is the union of the model's per-block
+    expectations.  Merged features get ids from shared counters: features are compared by (seqid, type, strand, start, end, original id or None),
+    relations through those signatures."""
+    import gffutils
+    feats, want_f, want_r = [], [], []
+    for k, (m, e) in enumerate(zip(models, exps)):
+        sq = "s%d" % k
+        suf = "_%d" % k
+        orig = set(dec(f["attrs"][0][1][0]) for f in m["feats"])
+        for f in m["feats"]:
+            g = dict(f, seqid=enc(sq), attrs=[[kk, [enc(dec(v) + suf) for v in vs]] if dec(kk) in ("ID", "Parent") else [kk, vs] for kk, vs in f["attrs"]])
+            feats.append(g)
+        sig = {}
+        for f in e["mergeall"]["db"]["feats"]:
+            i = dec(f["id"])
+            sig[i] = (sq, dec(f["ftype"]), dec(f["strand"]), f["start"], f["end"], (i + suf) if i in orig else None)
+            want_f.append(sig[i])
+        for r in e["mergeall"]["db"]["rels"]:
+            pa, ch = dec(r[0]), dec(r[1])
+            if pa in sig and ch in sig:
+                want_r.append((sig[pa], sig[ch], r[2]))
+    names = set(dec(f["attrs"][0][1][0]) for f in feats)
+    try:
+        with dbio.quiet():
+            db = gffutils.create_db([G.real_feature(f) for f in feats], path, force=True)
+            db.conn.close()
+            db = gffutils.FeatureDB(path)
+            db.merge_all(exclude_components=exclude)
+            db.conn.close()
+        conn = __import__("sqlite3").connect(path)
+        try:
+            got = {}
+            for i, sq, ft, st, s0, e0 in conn.execute("SELECT id, seqid, featuretype, strand, start, end FROM features").fetchall():
+                got[i] = (sq, ft, st, s0, e0, i if i in names else None)
+            rows = conn.execute("SELECT parent, child, level FROM relations").fetchall()
+        finally:
+            conn.close()
+        if sorted(got.values(), key=repr) != sorted(want_f, key=repr):
+            miss = [x for x in want_f if x not in set(got.values())][:4]
+            extra = [x for x in got.values() if x not in set(want_f)][:4]
+            return "scaled_merge_all:features", {"stored": len(got), "expected": len(want_f), "missing": miss, "unexpected": extra}
+        gr = sorted(((got[p], got[c], l) for p, c, l in rows if p in got and c in got), key=repr)
+        if gr != sorted(want_r, key=repr):
+            return "scaled_merge_all:relations", {"rows": len(gr), "expected": len(want_r)}
+        return None, None
+    except Exception as ex:  # noqa
+        return "scaled_merge_all:raised:" + type(ex).__name__, {"message": str(ex)[:200]}
+    finally:
+        if os.path.exists(path):
+            os.unlink(path)
+
+
 def run(ctx):
     thorough = ctx.tier == "thorough"
     ctx.rule = ("D1: every ordered list of <= %s intervals over positions 1..6 x 7 seqid/strand/type patterns x 8 criteria sets (default, any-inclusive, exact, start-inclusive, "
@@ -165,6 +224,15 @@ def run(ctx):
     for k, (m, e) in enumerate(zip(models, exp)):
         check_model(ctx, m, e, k)
     ctx.traces += len(models)
+    # scale: all models with the same exclude_components flag in one database, each on its own seqid
+    for flag in (True, False):
+        idx = [k for k, m in enumerate(models) if m["exclude"] == flag][: (1500 if thorough else 320)]
+        bad, detail = scaled_merge_all([models[k] for k in idx], [exp[k] for k in idx], flag, ctx.path("c16_scaled.db"))
+        if bad:
+            ctx.violation({"scaled_models": [models[k] for k in idx], "exclude": flag, "n_models": len(idx)}, bad, detail)
+        ctx.count(("scaled_merge_all", flag, len(idx)), True)
+        ctx.traces += 1
+        ctx.extra["scaled_merge_all_features"] = sum(len(models[k]["feats"]) for k in idx)
     ctx.assumptions += ["merged outputs are compared on seqid, start, end, strand, featuretype, frame and children; their ids only for distinctness; source is not compared",
                         "merge_all stores rows in the order the runs are found; the model inserts them in the same order"]
 
@@ -180,6 +248,9 @@ def replay(ctx, rec):
             if j["feats"] == c["feats"] and j["crits"] == c["crits"]:
                 return run_merge(db, j)[0] is not None
         return True
+    if "scaled_models" in c:
+        ms = c["scaled_models"]
+        return scaled_merge_all(ms, I.oracle(ctx, ms), c["exclude"], ctx.path("c16_scaled_replay.db"))[0] is not None
     if "model" in c:
         # re-run the model-based part on this one gene model: a fresh context collects what still disagrees
         m = c["model"]
@@ -187,4 +258,4 @@ def replay(ctx, rec):
         n0 = len(ctx.violations)
         check_model(ctx, m, e, 0)
         return len(ctx.violations) > n0
-    return True
+    raise core.CannotReplay("the case could not be reconstructed from the model")
